@@ -80,8 +80,8 @@ package kms
 //@   opt no-frame
 //@   requires c != nil && c.KMS != nil && resp != nil && results != nil && !chclosed(results) && plain(arr(resp.Plaintext))
 //@   ensures [C17:region-encrypts-the-data-key-under-its-own-master-key] ncalls(EncryptWithContext) == 1 && *arg(EncryptWithContext, 1, input).KeyId == c.ARN && arg(EncryptWithContext, 1, input).Plaintext == resp.Plaintext && arg(EncryptWithContext, 1, this) == c.KMS
-//@   ensures [C17:one-entry-per-successful-region] retis(EncryptWithContext, 1, 1, nil) ==> chsent(results) == old(chsent(results)) + 1 && lastsent(results).Region == c.Region && lastsent(results).ARN == c.ARN && lastsent(results).EncryptedKEK == ret(EncryptWithContext, 1, 0).CiphertextBlob
-//@   ensures [C17:no-entry-for-a-failed-region] !retis(EncryptWithContext, 1, 1, nil) ==> chsent(results) == old(chsent(results))
+//@   ensures [C17,C03:one-entry-per-successful-region] retis(EncryptWithContext, 1, 1, nil) ==> chsent(results) == old(chsent(results)) + 1 && lastsent(results).Region == c.Region && lastsent(results).ARN == c.ARN && lastsent(results).EncryptedKEK == ret(EncryptWithContext, 1, 0).CiphertextBlob
+//@   ensures [C17,C03:no-entry-for-a-failed-region] !retis(EncryptWithContext, 1, 1, nil) ==> chsent(results) == old(chsent(results))
 
 // spawned_encryptAllRegions_1(c): goroutines started for regional client c
 //@ ghost field spawned_encryptAllRegions_1(ref) int
